@@ -70,7 +70,10 @@ class VoiceLeadingStream(Stream):
                 spy["norm"], spy["dvals"], spy["instruments"] = score, dvals.copy(), list(vl.instruments)
                 return orig(score, dvals)
             vl.get_score = get_score
-        return vl(sc)
+        out = vl(sc)
+        if spy is not None:
+            spy["same_object_again"] = str(vl(sc)) == str(out)      # the same optimiser object, used twice
+        return out
 
     def impl(self, case):
         def f():
@@ -80,7 +83,7 @@ class VoiceLeadingStream(Stream):
             again = self.run_vl(case, sg.mk_rscore(case["score"]))
             ins = spy["instruments"]
             dss = [[int(spy["dvals"][ins.index(nm), j]) for nm in ch.score.keys()] for j, ch in enumerate(spy["norm"].chords)]
-            return {"norm": sg.read_score(spy["norm"]), "dss": dss, "out": sg.read_score(out), "same_again": str(out) == str(again),
+            return {"norm": sg.read_score(spy["norm"]), "dss": dss, "out": sg.read_score(out), "same_again": str(out) == str(again) and spy["same_object_again"],
                     "unchanged_input": sg.read_score(sc) == sg.read_score(sg.mk_rscore(case["score"])),
                     "bass": [int(c.bass_pitch) for c in out.chords],
                     "sys": [[[live_sys_len(ch, m.notes[0].type) if m.notes[0].type in "shcba" else 0, int(m.notes[0].val)]
@@ -187,6 +190,21 @@ class Parsimonious(Stream):
             for c in score:
                 c["coct"] = rng.choice([0, 0, 1, -1, 2, -3])
                 c["toct"] = rng.choice([0, 0, 0, 1, -1])
+            if i % 4 == 3:
+                # chords with replacements / additions / removals (kept when the library accepts the combination)
+                for c in score[1:]:
+                    c2 = dict(c)
+                    if rng.random() < 0.4:
+                        c2["repl"] = [rng.choice(["sus2", "sus4", "b5", "+"])]
+                    if rng.random() < 0.6:
+                        c2["adds"] = sorted(rng.sample(["add2", "add4", "add6", "add9", "add11", "m7", "M7"], rng.choice([1, 2])))
+                    if rng.random() < 0.2:
+                        c2["rems"] = [rng.choice(["-1", "-3", "-5"])]
+                    try:
+                        mlang.mk_chord(c2).chord_extension_pitches
+                        c.update(c2)
+                    except Exception:
+                        pass
             w = rng.random()
             if w < 0.3:
                 dirs = None
@@ -241,10 +259,12 @@ class Parsimonious(Stream):
                 return {"sig": "pars-parts-changed", "msg": f"chord {j}"}
             ref = r["bass"][0] if case["from_first"] else r["bass"][j - 1]
             mv = r["bass"][j] - ref
+            # the bound is a theorem for plain triads and sevenths; a chord with modifiers is a separate class of input
+            modified = ":modified-chord" if any(a[j].get(k) for k in ("repl", "adds", "rems")) else ""
             if abs(mv) > 7:
-                return {"sig": "pars-bass-leap", "msg": f"chord {j}: bass moves {mv:+d}"}
+                return {"sig": "pars-bass-leap" + modified, "msg": f"chord {j} ({mlang.ext_string(a[j]['fig'], a[j].get('repl', ()), a[j].get('adds', ()), a[j].get('rems', ()))}): bass moves {mv:+d}"}
             if (dirs[j - 1] == "up" and mv < 0) or (dirs[j - 1] == "down" and mv > 0):
-                return {"sig": "pars-direction", "msg": f"chord {j}: asked {dirs[j - 1]}, bass moves {mv:+d}"}
+                return {"sig": "pars-direction" + modified, "msg": f"chord {j} ({mlang.ext_string(a[j]['fig'], a[j].get('repl', ()), a[j].get('adds', ()), a[j].get('rems', ()))}): asked {dirs[j - 1]}, bass moves {mv:+d}"}
         if not r["unchanged_input"]:
             return {"sig": "pars-mutates-input", "msg": ""}
         return None
